@@ -146,6 +146,17 @@ def build_harness(config="default"):
     rc, out = sh(["cargo", "build", "--release", "--offline", "--target-dir", tdir] + feats, cwd=bdir, env=env, timeout=1800)
     return rc == 0, out, binp
 
+def dump_registry(binp):
+    """T3b: regenerate gen/CipherDump.v from the implementation built from the current tree"""
+    rc, out = sh([binp, "dump-ciphers"], timeout=300)
+    if rc != 0 or "impl_rows" not in out:
+        return False, out[-1500:]
+    p = os.path.join(COQ, "gen", "CipherDump.v")
+    old = open(p).read() if os.path.exists(p) else None
+    if old != out:
+        open(p, "w").write(out)
+    return True, ""
+
 # ------------------------------------------------------------------ cases
 class Case:
     __slots__ = ("line", "expect", "origin")
